@@ -131,7 +131,13 @@ func c07Exec(j c07Job) (res c07Res) {
 		}
 	}
 	if len(w.V) > 0 {
-		return c07Res{Err: "prep raised: " + w.V[0].Key + ": " + w.V[0].What}
+		// what the fault-free set-up does wrong is for the transition oracles of the other properties' checks; the fault
+		// enumeration goes on from the state reached (only a harness-level problem stops it)
+		for _, v := range w.V {
+			if v.Property == "HARNESS" {
+				return c07Res{Err: "prep: " + v.What}
+			}
+		}
 	}
 	if sc.PreLedger != "" {
 		p := w.LN.Payments[w.Melts[0].Hash]
